@@ -33,7 +33,7 @@ theorem primsOK_and {P : Params} {h : Nat} {R₁ R₂ : Rel DB} (o1 : PrimsOK P 
   setConvertedAmount a b c := (o1.setConvertedAmount a b c).and (o2.setConvertedAmount a b c)
   setPegConverted a b c d := (o1.setPegConverted a b c d).and (o2.setPegConverted a b c d)
   insertRelation a b c d e := (o1.insertRelation a b c d e).and (o2.insertRelation a b c d e)
-  insertHolding a b := (o1.insertHolding a b).and (o2.insertHolding a b)
+  insertHolding a b _ := (o1.insertHolding a b trivial).and (o2.insertHolding a b trivial)
   insertBank a := (o1.insertBank a).and (o2.insertBank a)
   updateBank a b c := (o1.updateBank a b c).and (o2.updateBank a b c)
   insertGrade a b c d e := (o1.insertGrade a b c d e).and (o2.insertGrade a b c d e)
@@ -65,7 +65,7 @@ theorem primsOK_logGrows (P : Params) (h : Nat) : PrimsOK P h logGrows where
   setConvertedAmount _ _ _ := guarded_keep (·.statusLog) logKeep (fun _ => rfl)
   setPegConverted _ _ _ _ := guarded_keep (·.statusLog) logKeep (fun _ => rfl)
   insertRelation _ _ _ _ _ := guarded_keep (·.statusLog) logKeep (fun s => by split <;> rfl)
-  insertHolding _ _ := guarded_keep (·.statusLog) logKeep (fun _ => rfl)
+  insertHolding _ _ _ := guarded_keep (·.statusLog) logKeep (fun _ => rfl)
   insertBank _ := guarded_keep (·.statusLog) logKeep (fun _ => rfl)
   updateBank _ _ _ := guarded_keep (·.statusLog) logKeep (fun _ => rfl)
   insertGrade _ _ _ _ _ := guarded_keep (·.statusLog) logKeep (fun _ => rfl)
